@@ -23,8 +23,10 @@ Has(e, f) == f \in DOMAIN e
 
 TraceInit == /\ stack = [g \in Gs |-> <<>>] /\ slot = [f \in Fns |-> NoCtx] /\ obs = [g \in Gs |-> <<>>] /\ done = [g \in Gs |-> TRUE] /\ l = 1
 
+\* a new history starts only when every call tree of the previous one has been invoked to its end
 TReset ==
     /\ IsEvent("Reset")
+    /\ \A g \in Gs : done[g]
     /\ stack' = [g \in Gs |-> IF g <= Len(Ev.trees) THEN <<Frame(Ev.trees[g])>> ELSE <<>>]
     /\ done' = [g \in Gs |-> g > Len(Ev.trees)]
     /\ obs' = [g \in Gs |-> <<>>]
